@@ -45,6 +45,9 @@ type config struct {
 	// Uname26: the process runs with the UNAME26 personality (setarch --uname-2.6; inherited over fork and exec), under which
 	// uname(2) reports release 2.6.x on any kernel. What the kernel does with the flags does not depend on what it reports.
 	Uname26 bool `json:"uname26"`
+	// NoNNP: the recorded load does not request no_new_privs (the caller decides whether it runs privileged: as uid nobody
+	// the kernel refuses such a load, and nil is only admissible with the statement's coverage)
+	NoNNP bool `json:"no_nnp"`
 }
 
 type probeRec struct {
@@ -227,7 +230,7 @@ func main() {
 			f := uint32(flags)
 			out.HookFlags, out.HookLen = &f, len(prog)
 		}
-		err := seccomp.LoadFilter(seccomp.Filter{NoNewPrivs: true, Flag: seccomp.FilterFlag(cfg.Flags), Policy: pol})
+		err := seccomp.LoadFilter(seccomp.Filter{NoNewPrivs: !cfg.NoNNP, Flag: seccomp.FilterFlag(cfg.Flags), Policy: pol})
 		if err != nil {
 			out.Result, out.Error = "err", err.Error()
 		} else {
